@@ -51,6 +51,7 @@ type env struct {
 	hostDir string               // parent store (disk)
 	disk    filesystem.Filespace
 	cache   *fscache.Cache
+	origin  filesystem.Filespace // the object the view was derived from (nil: the raw store)
 }
 
 func newEnv(disk bool) (*env, func(), error) {
@@ -126,13 +127,51 @@ func views() []viewKind {
 		if err != nil {
 			return nil, err
 		}
+		e.origin = enc
 		return chain(enc, "v")
+	})
+	// the same with a store that was written THROUGH the encryption (so that reads through the
+	// encrypted parent and its views succeed), depth 1 and 2
+	encStore := func(e *env, base filesystem.Filespace) (filesystem.Filespace, error) {
+		enc, err := encryptfs.NewEncryptFS(base, encSettings())
+		if err != nil {
+			return nil, err
+		}
+		for p, c := range storeFiles {
+			if err := enc.WriteFile(p, []byte(c), 0644); err != nil {
+				return nil, err
+			}
+		}
+		e.origin = enc
+		return enc, nil
+	}
+	add("child-of-encrypted-store", "v", false, func(e *env) (filesystem.Filespace, error) {
+		enc, err := encStore(e, e.mem)
+		if err != nil {
+			return nil, err
+		}
+		return chain(enc, "v")
+	})
+	add("child-of-child-of-encrypted-store", "v/n", false, func(e *env) (filesystem.Filespace, error) {
+		enc, err := encStore(e, e.mem)
+		if err != nil {
+			return nil, err
+		}
+		return chain(enc, "v", "n")
+	})
+	add("child-of-encrypted-disk-store", "v/n", true, func(e *env) (filesystem.Filespace, error) {
+		enc, err := encStore(e, e.disk)
+		if err != nil {
+			return nil, err
+		}
+		return chain(enc, "v/n")
 	})
 	add("child-of-encrypted-disk", "v", true, func(e *env) (filesystem.Filespace, error) {
 		enc, err := encryptfs.NewEncryptFS(e.disk, encSettings())
 		if err != nil {
 			return nil, err
 		}
+		e.origin = enc
 		return chain(enc, "v")
 	})
 	add("readonly-over-memfs-child", "v", false, func(e *env) (filesystem.Filespace, error) {
@@ -142,9 +181,13 @@ func views() []viewKind {
 		}
 		return fshelper.NewReadonlyFS(c), nil
 	})
-	add("child-of-readonly", "v", false, func(e *env) (filesystem.Filespace, error) { return chain(fshelper.NewReadonlyFS(e.mem), "v") })
-	add("child-of-child-of-readonly", "v/n", false, func(e *env) (filesystem.Filespace, error) { return chain(fshelper.NewReadonlyFS(e.mem), "v", "n") })
-	add("child-of-readonly-disk", "v", true, func(e *env) (filesystem.Filespace, error) { return chain(fshelper.NewReadonlyFS(e.disk), "v") })
+	ro := func(e *env, base filesystem.Filespace) filesystem.Filespace {
+		e.origin = fshelper.NewReadonlyFS(base)
+		return e.origin
+	}
+	add("child-of-readonly", "v", false, func(e *env) (filesystem.Filespace, error) { return chain(ro(e, e.mem), "v") })
+	add("child-of-child-of-readonly", "v/n", false, func(e *env) (filesystem.Filespace, error) { return chain(ro(e, e.mem), "v", "n") })
+	add("child-of-readonly-disk", "v", true, func(e *env) (filesystem.Filespace, error) { return chain(ro(e, e.disk), "v") })
 	add("subfs-over-memfs", "v", false, func(e *env) (filesystem.Filespace, error) { return fshelper.NewSubFS(e.mem, "v"), nil })
 	add("subfs-of-subfs", "v/n", false, func(e *env) (filesystem.Filespace, error) { return chain(fshelper.NewSubFS(e.mem, "v"), "n") })
 	add("subfs-over-disk", "v", true, func(e *env) (filesystem.Filespace, error) { return fshelper.NewSubFS(e.disk, "v"), nil })
@@ -154,6 +197,7 @@ func views() []viewKind {
 		if e.cache, err = fscache.NewMemCache(e.mem); err != nil {
 			return nil, err
 		}
+		e.origin = e.cache
 		return chain(e.cache, "v")
 	}, flush: func(e *env) error { return e.cache.Commit() }, visible: func(e *env) []filesystem.Filespace { return []filesystem.Filespace{e.cache} }})
 	vs = append(vs, viewKind{Name: "child-of-child-of-cache", Root: "v/n", build: func(e *env) (filesystem.Filespace, error) {
@@ -161,6 +205,7 @@ func views() []viewKind {
 		if e.cache, err = fscache.NewMemCache(e.mem); err != nil {
 			return nil, err
 		}
+		e.origin = e.cache
 		return chain(e.cache, "v", "n")
 	}, flush: func(e *env) error { return e.cache.Commit() }, visible: func(e *env) []filesystem.Filespace { return []filesystem.Filespace{e.cache} }})
 	vs = append(vs, viewKind{Name: "cache-over-memfs-child", Root: "v", build: func(e *env) (filesystem.Filespace, error) {
@@ -344,6 +389,29 @@ func runCasePre(v viewKind, op treefs.Op, sub string, prelude string) *verdict {
 		case "mkdir-remove":
 			fsx.Exec(view, treefs.Op{Kind: "MkdirAll", P: "pre/dir"})
 			fsx.Exec(view, treefs.Op{Kind: "RemoveAll", P: "pre"})
+		case "outside-sweep":
+			// every read-type operation on every node of the store through the object the view was
+			// derived from, and through a sibling view: state shared between views of one tree
+			// (resolved paths, decrypted or buffered content) is filled with OUTSIDE data first
+			org := e.origin
+			if org == nil {
+				org = e.mem
+				if v.Disk {
+					org = e.disk
+				}
+			}
+			sweep := func(f filesystem.Filespace, names ...string) {
+				for _, n := range names {
+					for _, k := range []string{"IsExist", "IsFile", "IsDir", "Lstat", "ReadDir", "ReadFile"} {
+						fsx.Exec(f, treefs.Op{Kind: k, P: n})
+					}
+					fsx.Exec(f, treefs.Op{Kind: "Reader", P: n, Buf: 64})
+				}
+			}
+			sweep(org, ".", "n", "outdir", "outdir/o.txt", "v", "v/n", "v/n/n", "v/x")
+			if sib, err := org.Filespace("outdir"); err == nil && sib != nil {
+				sweep(sib, ".", "o.txt", "n")
+			}
 		}
 		before := snap()
 		target := view
@@ -543,9 +611,9 @@ func run(c *fw.Ctx) {
 			}
 			// the Filespace method itself with the path as argument, followed by a write and a read
 			cases = append(cases, cs{treefs.Op{Kind: "WriteFile", P: "evil", Data: "EVIL-sub"}, p}, cs{treefs.Op{Kind: "ReadDir", P: "."}, p}, cs{treefs.Op{Kind: "RemoveAll", P: "n"}, p})
-			preludes := []string{""}
+			preludes := []string{"", "outside-sweep"}
 			if esc := pathClass(p); esc != "stays-inside" {
-				preludes = []string{"", "write", "list", "mkdir-remove"}
+				preludes = []string{"", "outside-sweep", "write", "list", "mkdir-remove"}
 			}
 			for _, k := range cases {
 				for _, pre := range preludes {
@@ -610,7 +678,7 @@ func replay(w json.RawMessage) (*fw.Violation, error) {
 
 func init() {
 	fw.Register(&fw.Check{ID: "C03", Level: "exploration",
-		Rule: "all path strings of <=3 (quick) / <=4 (thorough) segments over {n, '.', '..', ''} with and without leading '/', x all 16 operations (both arguments of the copy operations, and the path used as Filespace() argument followed by write/list/remove) x 21 view kinds (memory, disk, encrypted, read-only, sub-path, cache-backed; depth 1 and 2), each on a fresh store with canaries outside the view root, climbing paths additionally after a harmless prelude (write / list / mkdir+remove) through the same view object; distinct = (view, op, path) cases, non-trivial = all (every case touches a populated store)",
+		Rule: "all path strings of <=3 (quick) / <=4 (thorough) segments over {n, '.', '..', ''} with and without leading '/', x all 16 operations (both arguments of the copy operations, and the path used as Filespace() argument followed by write/list/remove) x 24 view kinds (memory, disk, encrypted incl. stores written through the encryption, read-only, sub-path, cache-backed; depth 1 and 2), each on a fresh store with canaries outside the view root, every case additionally after an 'outside sweep' (all read-type operations on every store node through the object the view was derived from and through a sibling view), climbing paths additionally after a harmless prelude (write / list / mkdir+remove) through the same view object; distinct = (view, op, path) cases, non-trivial = all (every case touches a populated store)",
 		Run:  run, Replay: replay,
 		Assumptions: []string{"segment bound as stated; the 'randomly beyond the bound' part of the quantifier is not claimed", "one store shape; the view root itself counts as inside", "a result is a leak when it returns content/listing/stat of a node outside the root (canary contents and names are unique)"}})
 }
